@@ -15,11 +15,14 @@ import (
 	"os"
 	"sort"
 	"strings"
+	"sync"
+	"sync/atomic"
 	"testing"
 	"time"
 
 	"github.com/oauth2-proxy/oauth2-proxy/v7/pkg/apis/options"
 	sessionsapi "github.com/oauth2-proxy/oauth2-proxy/v7/pkg/apis/sessions"
+	"github.com/oauth2-proxy/oauth2-proxy/v7/pkg/encryption"
 	"github.com/spf13/pflag"
 )
 
@@ -801,6 +804,7 @@ func driveC05(t *testing.T, out *vEmitter) {
 	vKeys()
 	defer vC05MethodSpellings(t, out)
 	defer vC05ReplayedToken(t, out)
+	defer vC05ConcurrentLogins(t, out)
 	defer vC05LegacyLoaded(t, out)
 	defer vC05AlphaConfig(t, out)
 	defer vC05GenericPKCE(t, out)
@@ -1631,16 +1635,16 @@ func vC14FamilyBearer(t *testing.T, out *vEmitter) {
 		ok := map[string]interface{}{"realm_access": map[string]interface{}{"roles": []interface{}{"r1"}},
 			"resource_access": map[string]interface{}{clientID: map[string]interface{}{"roles": []interface{}{"c1"}}}, "groups": []interface{}{"g"}}
 		faults := map[string]map[string]interface{}{
-			"well-formed":                 ok,
-			"realm-roles-string":          {"realm_access": map[string]interface{}{"roles": "admin"}},
-			"realm-roles-number":          {"realm_access": map[string]interface{}{"roles": 7}},
-			"realm-roles-object":          {"realm_access": map[string]interface{}{"roles": map[string]interface{}{"a": 1}}},
-			"realm-access-string":         {"realm_access": "x"},
-			"realm-access-list":           {"realm_access": []interface{}{"x"}},
-			"resource-access-string":      {"resource_access": "x"},
-			"resource-client-string":      {"resource_access": map[string]interface{}{clientID: "x"}},
+			"well-formed":                  ok,
+			"realm-roles-string":           {"realm_access": map[string]interface{}{"roles": "admin"}},
+			"realm-roles-number":           {"realm_access": map[string]interface{}{"roles": 7}},
+			"realm-roles-object":           {"realm_access": map[string]interface{}{"roles": map[string]interface{}{"a": 1}}},
+			"realm-access-string":          {"realm_access": "x"},
+			"realm-access-list":            {"realm_access": []interface{}{"x"}},
+			"resource-access-string":       {"resource_access": "x"},
+			"resource-client-string":       {"resource_access": map[string]interface{}{clientID: "x"}},
 			"resource-client-roles-string": {"resource_access": map[string]interface{}{clientID: map[string]interface{}{"roles": "c1"}}},
-			"resource-client-roles-mixed": {"resource_access": map[string]interface{}{clientID: map[string]interface{}{"roles": []interface{}{"c1", 2}}}},
+			"resource-client-roles-mixed":  {"resource_access": map[string]interface{}{clientID: map[string]interface{}{"roles": []interface{}{"c1", 2}}}},
 		}
 		var labels []string
 		for l := range faults {
@@ -1856,6 +1860,114 @@ func vC05Legacy(t *testing.T, out *vEmitter) {
 			out.Violation("pkce-nonce/challenge-missing", "the authorization request carries no code challenge although a method is configured",
 				map[string]interface{}{"code_challenge_method": c.ccm, "force_code_challenge_method": c.force, "sent_method": l.Method, "challenge_sent": l.Challenge != "", "verifier_stored": verifier != ""})
 		}
+	}
+}
+
+// vC05ConcurrentLogins: logins whose requests overlap in time.  Each authorization request carries the hash of ITS OWN
+// login's nonces (the raw ones are in that login's CSRF cookie), and a callback whose ID token carries another
+// in-flight login's nonce yields no session - whatever else the process is hashing at that moment.
+func vC05ConcurrentLogins(t *testing.T, out *vEmitter) {
+	e := vNewEnv(t, vEnvCfg{oidc: true, mod: func(o *options.Options) {
+		o.Providers[0].OIDCConfig.InsecureSkipNonce = false
+		o.Cookie.CSRFPerRequest = true
+	}})
+	b64sha := func(x string) string {
+		h := sha256.Sum256([]byte(x))
+		return base64.RawURLEncoding.EncodeToString(h[:])
+	}
+	var wrongStart, wrongAccept, total int64
+	var mu sync.Mutex
+	var first map[string]interface{}
+	// the identity provider answers every redemption with a token carrying the nonce named in the code
+	e.idp.onToken = func(form url.Values) (int, string, string, error) {
+		return 200, "application/json", vTokenJSON(vJWT(vKeyRSA, "RS256", vClaims("user@example.com", map[string]interface{}{"nonce": form.Get("code")})), "at", "rt", 3600), nil
+	}
+	n := vPick(150, 1500)
+	var wg sync.WaitGroup
+	for g := 0; g < 8; g++ {
+		wg.Add(1)
+		go func(g int) {
+			defer wg.Done()
+			var prev *vLogin
+			for i := 0; i < n; i++ {
+				b := e.newBrowser("https://app.example.com")
+				l := b.start(fmt.Sprintf("/g%d/%d", g, i))
+				c := vCsrfCookieOf(e, l.Start)
+				if c == nil {
+					continue
+				}
+				rawNonce, rawState, _ := vCsrfRaw(e.opts.Cookie.Secret, c.Value)
+				atomic.AddInt64(&total, 1)
+				stateHead := l.State
+				if k := strings.Index(stateHead, ":"); k >= 0 {
+					stateHead = stateHead[:k]
+				}
+				if l.Nonce != b64sha(rawNonce) || stateHead != b64sha(rawState) {
+					if atomic.AddInt64(&wrongStart, 1) == 1 {
+						mu.Lock()
+						first = map[string]interface{}{"what": "the authorization request's nonce / state is not the hash of this login's own", "goroutine": g, "login": i}
+						mu.Unlock()
+					}
+				}
+				// every fourth login is completed with ANOTHER login's nonce in the ID token (the code names the nonce to put in)
+				if i%4 == 3 && prev != nil {
+					cb := b.callback(l.State, prev.Nonce)
+					if e.sessionCookieSet(cb) {
+						if atomic.AddInt64(&wrongAccept, 1) == 1 {
+							mu.Lock()
+							first = map[string]interface{}{"what": "a callback whose ID token carries another login's nonce yielded a session", "goroutine": g, "login": i}
+							mu.Unlock()
+						}
+					}
+				} else if i%4 == 1 {
+					cb := b.callback(l.State, l.Nonce)
+					if !e.sessionCookieSet(cb) {
+						if atomic.AddInt64(&wrongAccept, 1) == 1 {
+							mu.Lock()
+							first = map[string]interface{}{"what": "a callback carrying its own login's nonce was refused", "goroutine": g, "login": i, "status": cb.Status}
+							mu.Unlock()
+						}
+					}
+				}
+				prev = l
+			}
+		}(g)
+	}
+	wg.Wait()
+	// the step both sides of the check go through - hashing a login's nonce (encryption.HashNonce: doOAuthStart and the
+	// providers' checkNonce) - under the same concurrency, many more times than whole logins can be run
+	var hashed int64
+	for g := 0; g < 8; g++ {
+		wg.Add(1)
+		go func(g int) {
+			defer wg.Done()
+			own := []byte(fmt.Sprintf("nonce-of-login-%d-%s", g, strings.Repeat("x", g)))
+			want := b64sha(string(own))
+			for i := 0; i < vPick(60000, 600000); i++ {
+				atomic.AddInt64(&hashed, 1)
+				got := encryption.HashNonce(own)
+				if got != want || !encryption.CheckNonce(own, want) {
+					if atomic.AddInt64(&wrongStart, 1) == 1 {
+						mu.Lock()
+						first = map[string]interface{}{"what": "the hash computed for one login's nonce, while other logins' nonces were being hashed, is not its own", "goroutine": g, "call": i, "got": got, "want": want}
+						mu.Unlock()
+					}
+					return
+				}
+			}
+		}(g)
+	}
+	wg.Wait()
+	out.Stat("c05_concurrent_nonce_hashes", int(hashed))
+	out.Obs("concurrent-logins", true, vL(vI(total), vI(wrongStart), vI(wrongAccept)))
+	out.Stat("c05_concurrent_logins", int(total))
+	if wrongStart+wrongAccept > 0 {
+		first["wrong_authorization_requests"], first["wrong_callback_verdicts"], first["logins"], first["concurrent"] = wrongStart, wrongAccept, total, 8
+		key := "pkce-nonce/session-with-wrong-nonce"
+		if wrongAccept == 0 {
+			key = "pkce-nonce/nonce-missing-or-repeated"
+		}
+		out.Violation(key, "with logins in flight together, a nonce sent or checked was not this login's own", first)
 	}
 }
 
